@@ -422,12 +422,50 @@ func faultTable() map[string]faultFn {
 			return &injected{class: "undefined-type-parameter", off: rs, patterns: []string{"not found", "does not exist"}}
 		},
 		"undefined-type-body": func(t *ftree) *injected {
-			d := &model.RDir{Kind: "TYPE", Keyword: "TYPE", Params: []string{"@faulty"}, BodyKind: "schema", BodyLines: []string{"{", "  \"ok\": 1,", "  \"bad\": @nowhere", "}"}}
+			// every way a schema can name a user type, in every kind of directive that holds a schema
+			forms := []struct {
+				lines []string
+				line  int
+			}{
+				{[]string{"{", "  \"ok\": 1,", "  \"bad\": @nowhere", "}"}, 3},
+				{[]string{"{", "  \"ok\": 1,", "  \"bad\": 1 // {type: \"@nowhere\"}", "}"}, 3},
+				{[]string{"{ // {allOf: \"@nowhere\"}", "  \"ok\": 1", "}"}, 1},
+				{[]string{"{", "  \"ok\": 1,", "  \"bad\": 1 // {or: [\"@nowhere\", \"string\"]}", "}"}, 3},
+				{[]string{"{", "  \"ok\": 1,", "  \"bad\": {} // {additionalProperties: \"@nowhere\"}", "}"}, 3},
+				{[]string{"{", "  \"ok\": 1,", "  @nowhere: 1", "}"}, 3},
+				{[]string{"{", "  \"ok\": 1,", "  \"bad\": [", "    @nowhere", "  ]", "}"}, 4},
+				{[]string{"{", "  \"ok\": 1,", "  \"bad\": @nowhere | @nowhere2", "}"}, 3},
+				{[]string{"{", "  \"ok\": 1,", "  \"bad\": 1 // {or: [{type: \"@nowhere\"}, {type: \"string\"}]}", "}"}, 3},
+			}
+			f := forms[t.r.Intn(len(forms))]
+			pat := []string{"not found", "does not exist"}
+			switch t.r.Intn(4) {
+			case 1: // body of a response
+				m, _ := t.method()
+				rs := &model.RDir{Kind: "HTTP-response-code", Keyword: "299", BodyKind: "schema", BodyLines: f.lines}
+				m.Children = append(m.Children, rs)
+				return &injected{class: "undefined-type-body", off: rs, bodyLine: f.line, patterns: pat}
+			case 2: // Headers of a response
+				m, _ := t.method()
+				rs := &model.RDir{Kind: "HTTP-response-code", Keyword: "298"}
+				h := &model.RDir{Kind: "Headers", Keyword: "Headers", BodyKind: "schema", BodyLines: f.lines}
+				rs.Children = []*model.RDir{h, {Kind: "Body", Keyword: "Body", Params: []string{"any"}}}
+				m.Children = append(m.Children, rs)
+				return &injected{class: "undefined-type-body", off: h, bodyLine: f.line, patterns: pat}
+			case 3: // Query of a method that has none
+				m, _ := t.method()
+				if child(m, "Query") == nil {
+					q := &model.RDir{Kind: "Query", Keyword: "Query", Params: []string{"ok=1"}, BodyKind: "schema", BodyLines: f.lines}
+					m.Children = append([]*model.RDir{q}, m.Children...)
+					return &injected{class: "undefined-type-body", off: q, bodyLine: f.line, patterns: pat}
+				}
+			}
+			d := &model.RDir{Kind: "TYPE", Keyword: "TYPE", Params: []string{"@faulty"}, BodyKind: "schema", BodyLines: f.lines}
 			at := 1 + t.r.Intn(len(t.roots))
 			out := append([]*model.RDir(nil), t.roots[:at]...)
 			out = append(out, d)
 			t.roots = append(out, t.roots[at:]...)
-			return &injected{class: "undefined-type-body", off: d, bodyLine: 3, patterns: []string{"not found", "does not exist"}}
+			return &injected{class: "undefined-type-body", off: d, bodyLine: f.line, patterns: pat}
 		},
 		"undefined-enum": func(t *ftree) *injected {
 			d := &model.RDir{Kind: "TYPE", Keyword: "TYPE", Params: []string{"@faultyE"}, BodyKind: "schema", BodyLines: []string{"{", "  \"bad\": \"a\" // {enum: @noenum}", "}"}}
